@@ -684,6 +684,37 @@ theorem transformPoint_scaling (sx sy sz : Int) (v : Vec 3) (i : Fin 3) :
   simp only [e]
   fin_cases i <;> simp [Matrix.diagonal]
 
+/-- `math::mod` is C++ `%` (truncating), nothing for a zero divisor; `vector::mod` applies it per component -/
+theorem mod_some (a b r : Int) : mod a b = some r ↔ b ≠ 0 ∧ r = Int.tmod a b := Lemma.mod_eq_some a b r
+theorem mod_none (a b : Int) : mod a b = none ↔ b = 0 := Lemma.mod_eq_none a b
+/-- on the operands the code can be instantiated with (unsigned `T`) it is the mathematical remainder -/
+theorem mod_of_nonneg (a b : Int) (ha : 0 ≤ a) (hb : 0 < b) : mod a b = some (a % b) := by
+  rw [mod_some]; exact ⟨by omega, (Int.tmod_eq_emod_of_nonneg ha).symm⟩
+theorem modV_some {n : Nat} (v0 v1 w : Vec n) :
+    modV v0 v1 = some w ↔ w.IsStatic ∧ ∀ i, v1.get i ≠ 0 ∧ w.get i = Int.tmod (v0.get i) (v1.get i) := Lemma.modV_eq_some v0 v1 w
+theorem modV_none {n : Nat} (v0 v1 : Vec n) : modV v0 v1 = none ↔ ∃ i, v1.get i = 0 := Lemma.modV_eq_none v0 v1
+theorem modS_some {n : Nat} (v w : Vec n) (d : Int) :
+    modS v d = some w ↔ w.IsStatic ∧ ∀ i, d ≠ 0 ∧ w.get i = Int.tmod (v.get i) d := Lemma.modS_eq_some v w d
+theorem modS_none {n : Nat} (v : Vec n) (d : Int) : modS v d = none ↔ 0 < n ∧ d = 0 := Lemma.modS_eq_none v d
+
+/-- `math::ceil_div_signed(a, b)` is the ceiling of the exact quotient for every combination of signs, nothing for `b = 0` -/
+theorem ceilDivSigned_eq_ceil (a b q : Int) (h : ceilDivSigned a b = some q) : q = ⌈(a : ℚ) / b⌉ := Lemma.ceilDivSigned_eq_ceil a b q h
+theorem ceilDivSigned_none (a b : Int) : ceilDivSigned a b = none ↔ b = 0 := Lemma.ceilDivSigned_eq_none a b
+theorem ceilDivSigned_some (a b : Int) (h : b ≠ 0) : ∃ q, ceilDivSigned a b = some q := by
+  cases hq : ceilDivSigned a b with
+  | none => exact absurd ((Lemma.ceilDivSigned_eq_none a b).1 hq) h
+  | some q => exact ⟨q, rfl⟩
+
+/-- `vector::ceil_div_signed(v, d)`: the ceiling per component -/
+theorem ceilDivSignedV_some {n : Nat} (v w : Vec n) (d : Int) (h : ceilDivSignedV v d = some w) (i : Fin n) :
+    d ≠ 0 ∧ w.get i = ⌈((v.get i : Int) : ℚ) / d⌉ := by
+  simp only [ceilDivSignedV, Lemma.sequence_eq_some] at h
+  have hi := h.2 i
+  simp only [Fin.getElem_fin, Vector.getElem_ofFn, Lemma.getElem_toArray] at hi
+  refine ⟨fun h0 => ?_, Lemma.ceilDivSigned_eq_ceil _ _ _ hi⟩
+  rw [h0, (Lemma.ceilDivSigned_eq_none _ 0).2 rfl] at hi
+  cases hi
+
 /-- `infinity_norm` of a matrix with at least one row is the largest absolute row sum -/
 theorem infinityNorm_max {r c : Nat} (m : Mat (r + 1) c) :
     (∀ i, m.rowAbsSum i ≤ m.infinityNorm) ∧ ∃ i, m.infinityNorm = m.rowAbsSum i := by
